@@ -59,8 +59,8 @@ def run(db, res, tier):
         written.add(array_key(lc, a.root))
   for k in live_tables.CONSTANT_AFTER_MAKE_DATA:
     res.ob(k not in written, f"constant|{k}", Finding("R-LIVE.2", f"{k}|written-by-kernel", f"{k} is tabled as constant after make_data but a kernel writes it", "mujoco_warp/_src"))
-  ncl = r_live.check_cleared_before_partial(res, db, ["forward.step", "forward.forward", "inverse.inverse"], live_tables.CLEARED_BEFORE_PARTIAL)
-  res.floor("cleared-before-partial-write obligations", ncl, 18)
+  ncl = r_live.check_cleared_before_partial(res, db, ["forward.step", "forward.forward", "inverse.inverse"], live_tables.INIT_BEFORE_PARTIAL)
+  res.floor("initialised-before-partial-write obligations", ncl, 55)
   nfresh = r_live.check_fresh_rows_not_read(res, db, all_lcs)
   res.floor("row/slot allocating kernels examined for reads of fresh cells", nfresh, 15)
   nslot = r_live.check_slot_records(res, db, all_lcs)
@@ -68,7 +68,7 @@ def run(db, res, tier):
   res.floor("trace events with effects", total_ev, 2500)
   res.floor("scatter-then-read instances inside host loops", nloop, 10)
   res.floor("live-in fields examined", sum(len(v) for v in lives.values()), 25)
-  res.rule_text = "R-LIVE: LiveIn(step) and LiveIn(forward) - array fields read (or accumulated into) by some launch/copy with no earlier possible definition in the same call - contain only Model fields, State.INTEGRATION fields, tabled sticky diagnostics / make_data constants and (with sleeping enabled) the persistent sleep state; scratch temporaries are never read before definition; R-LIVE.8: a kernel never reads a cell of a constraint row / contact slot it has just allocated from the atomic counter before writing it; R-LIVE.7: every field that today's tree clears on the host before launches of the same function accumulate into it or write it partially (tabled reference, 23 pairs) still has a dominating full definition; R-LIVE.6: for each single disable/enable flag, each flag pair tested together and each member of the integrator / solver / cone option enums, no read of a non-state Data field stays reachable (three-valued evaluation of host path conditions) while every earlier definition of the field in the same call becomes unreachable; R-LIVE.5: every kernel that allocates a slot of the flat contact buffer (re)defines every Contact field of the slot over its full trailing extent (slots are re-used across steps); R-LIVE.4: an array filled by sparse-column scatter (index loaded from a *colind field) and read densely later in the same iteration of a host loop (solver iterations, RK4 stages) is cleared inside the iteration before the scatter"
+  res.rule_text = "R-LIVE: LiveIn(step) and LiveIn(forward) - array fields read (or accumulated into) by some launch/copy with no earlier possible definition in the same call - contain only Model fields, State.INTEGRATION fields, tabled sticky diagnostics / make_data constants and (with sleeping enabled) the persistent sleep state; scratch temporaries are never read before definition; R-LIVE.8: a kernel never reads a cell of a constraint row / contact slot it has just allocated from the atomic counter before writing it; R-LIVE.7: every field that today's tree clears on the host before launches of the same function accumulate into it or write it partially (tabled reference, 73 pairs: host fills and initialising launches) still has a dominating full definition; R-LIVE.6: for each single disable/enable flag, each flag pair tested together and each member of the integrator / solver / cone option enums, no read of a non-state Data field stays reachable (three-valued evaluation of host path conditions) while every earlier definition of the field in the same call becomes unreachable; R-LIVE.5: every kernel that allocates a slot of the flat contact buffer (re)defines every Contact field of the slot over its full trailing extent (slots are re-used across steps); R-LIVE.4: an array filled by sparse-column scatter (index loaded from a *colind field) and read densely later in the same iteration of a host loop (solver iterations, RK4 stages) is cleared inside the iteration before the scatter"
   res.explanation = (
     "Field-level def-use over the ordered host effect trace of step()/forward() (every launch resolved to its kernel's own read/write sets, launch-time literal arguments pruning dead branches). "
     "A may-define counts as a kill, so the analysis under-reports; every reported field is a definite read of a value that the call did not produce. "
